@@ -258,7 +258,7 @@ class CRD(Fmt):
 class VASP(Fmt):
     name = "poscar"
     kind = "poscar"
-    space = [("natom", [3, 1, 10]), ("elements", ["OHH", "two-letter"]), ("cell", ["cubic", "triclinic", "left-handed"]), ("mode", ["direct", "cartesian"]), ("selective", [False, True]),
+    space = [("natom", [3, 1, 10]), ("elements", ["OHH", "two-letter"]), ("cell", ["cubic", "triclinic", "left-handed"]), ("mode", ["direct", "cartesian", "K", "cart", "kartesisch", "d", "Direct coordinates"]), ("selective", [False, True]),
              ("scale", [1.0, 2.5, 0.5]), T(6)]
 
     def grid(self, c):
@@ -271,7 +271,8 @@ class VASP(Fmt):
         cell = {"cubic": np.eye(3) * 5.0, "triclinic": np.array([[4.0, 0.0, 0.0], [1.25, 5.0, 0.0], [-0.5, 0.75, 6.0]]), "left-handed": np.array([[0.0, 5.0, 0.0], [4.0, 0.0, 0.0], [0.0, 0.0, 6.0]])}[c["cell"]] * ANG
         r = coords("small", n, 4, ANG, seed) * 0.25
         g = self.grid(c)
-        text, order = writers.poscar(z, r, cell, c["title"], c["scale"], c["mode"] == "direct", c["selective"], g, self.kind)
+        direct = c["mode"][0].lower() not in "ck"
+        text, order = writers.poscar(z, r, cell, c["title"], c["scale"], direct, c["selective"], g, self.kind, None if c["mode"] in ("direct", "cartesian") else c["mode"])
         zo = [z[i] for i in order]
         ro = r[order]
         exp = [("atnums", zo, None), ("atcoords", ro, 1e-9), ("cellvecs", cell, 1e-9), ("title", c["title"], None)]
